@@ -630,7 +630,10 @@ func (t *TableEngine) evalCompare(op token.Token, x, y ast.Expr, st *tstate, k f
 		}
 		s.env.ords[key] = part.m
 		s.env.atoms[key] = atom
-		s.hist = append(s.hist, Decision{atom, ordStr(part.m)})
+		if !(ok && part.m == cur) {
+			// a test whose outcome is already determined by earlier ones refines nothing and is not a decision
+			s.hist = append(s.hist, Decision{atom, ordStr(part.m)})
+		}
 		k(s, part.v)
 	}
 }
